@@ -40,6 +40,21 @@ def main():
     meta["patch_applies"] = rc == 0
     if rc != 0:
         meta["error"] = out[-500:]
+    elif os.environ.get("SEEDTEST_RECHECK") == "1" and os.path.exists(os.path.join(VERIF, "seeded", seed_id, "meta.json")):
+        # re-run only the checks on a seed validated earlier (tests / demo results are kept from the stored record)
+        old = json.load(open(os.path.join(VERIF, "seeded", seed_id, "meta.json")))
+        for k in ("tests_pass_with_change", "tests_line", "demo_passes_without", "demo_fails_with", "demo_output_with"):
+            meta[k] = old.get(k)
+        meta["ran"] = list(old.get("ran", []))[:2]
+        meta["checks"] = {}
+        for pr in [prop] + extra_props:
+            t0 = time.time()
+            rc, out = run([os.path.join(VERIF, "check"), pr, "--tier", "quick"], cwd=VERIF, env={"VERIF_REPO": mut, "VERIF_SEED": "0", "VERIF_EVIDENCE_DIR": os.path.join(work, "evidence")})
+            lines = [l for l in out.splitlines() if "VIOLATION" in l or l.startswith("OK ") or "violating input" in l or "broken obligation" in l]
+            meta["checks"][pr] = {"exit": rc, "wall_s": round(time.time() - t0, 1), "verdict": [l[:400] for l in lines][:6]}
+            meta["ran"].append(f"VERIF_REPO=<patched copy> ./check {pr} --tier quick")
+        meta["caught"] = meta["checks"][prop]["exit"] == 1
+        meta["caught_with_input"] = meta["caught"] and not any("no-failing-input-found" in l for l in meta["checks"][prop]["verdict"])
     else:
         rc, out = run([PY, "-m", "pytest", "-q", "-p", "no:cacheprovider", "tests"], cwd=mut)
         meta["tests_pass_with_change"] = rc == 0
